@@ -20,6 +20,10 @@ import (
 	"strings"
 )
 
+// c03Tunnel runs one live tunnel of the given kind through the in-process mesh (set by eng_c04.go,
+// which is compiled into every build that carries tag c04 or all).
+var c03Tunnel func(kind string, payload []byte) string
+
 func c03RepoRoot() string {
 	if r := os.Getenv("VERIF_REPO"); r != "" {
 		return r
